@@ -94,7 +94,9 @@ std::string write_read(std::string const& dev, View const& v, std::string const&
     Img back;
     try { read_dev<Tag>(dev, back, path, file); }
     catch (std::ios_base::failure const&) { return head + " | err:io"; }
-    return head + " | " + std::to_string(back.width()) + " " + std::to_string(back.height()) + " " + hex(dump<CB>(gil::const_view(back))); }
+    // an image far larger than the source (a mangled header field) is reported by its dimensions only
+    bool huge = (long long)back.width() * back.height() > 4ll * v.width() * v.height() + 64;
+    return head + " | " + std::to_string(back.width()) + " " + std::to_string(back.height()) + " " + (huge ? std::string("-") : hex(dump<CB>(gil::const_view(back)))); }
 
 // ---- organisations.  Planar / Alt = void when the pixel type has none.
 template <typename Tag, typename Img, int CB, typename Planar, typename Alt, typename Info = Tag>
